@@ -6,6 +6,8 @@ TIER=$1; shift
 ./setup.sh >/dev/null 2>&1 || { echo "SETUP FAILED"; exit 2; }
 for s in "$@"; do
   for p in $(/venv/bin/python -c "import json; print(' '.join(sorted(json.load(open('theorems.json')))))"); do
-    VERIF_SEED=$s ./check $p --tier $TIER 2>&1 | grep -E "VIOLATION|-> " | cut -c1-220 | sed "s/^/[seed $s] /"
+    o=$(VERIF_SEED=$s ./check $p --tier $TIER 2>&1)
+    echo "$o" | grep -E "VIOLATION|-> " | cut -c1-220 | sed "s/^/[seed $s] /"
+    echo "$o" | grep -q -- "-> " || echo "[seed $s] $p CRASHED: $(echo "$o" | tail -1 | cut -c1-160)"
   done
 done
